@@ -87,6 +87,12 @@ CONTRACTS = [
     Contract("Hypergraph.get_mapping", H.FILE, ["Hypergraph", "get_mapping"], self_cls="Hypergraph", properties=["C09"],
              params={}, result="Obj[LabelEnc]", pure=True, requires={"wf": "wf(self)"},
              ensures={"labels": "all((n in result._enc) == (n in V(self)) for n in Node)", "bijection": "enc_ok(result)"}),
+    Contract("DirectedHypergraph.get_mapping", "hypergraphx/core/directed_hypergraph.py", ["DirectedHypergraph", "get_mapping"], self_cls="DirectedHypergraph",
+             properties=["C09"], params={}, result="Obj[LabelEnc]", pure=True, requires={"wf": "wf(self)"},
+             ensures={"labels": "all((n in result._enc) == (n in V(self)) for n in Node)", "bijection": "enc_ok(result)"}),
+    Contract("TemporalHypergraph.get_mapping", "hypergraphx/core/temporal_hypergraph.py", ["TemporalHypergraph", "get_mapping"], self_cls="TemporalHypergraph",
+             properties=["C09"], params={}, result="Obj[LabelEnc]", pure=True, requires={"wf": "wf(self)"},
+             ensures={"labels": "all((n in result._enc) == (n in V(self)) for n in Node)", "bijection": "enc_ok(result)"}),
     Contract("get_inverse_mapping", "hypergraphx/utils/labeling.py", ["get_inverse_mapping"], properties=["C09"],
              params={"mapping": "Obj[LabelEnc]"}, result="Map[Int,Int]", pure=True, requires={"fitted": "enc_ok(mapping)"},
              ensures={"dom": "all((i in result) == (i in mapping._inv) for i in Int)", "val": "all(result[i] == mapping._inv[i] for i in result)"}),
